@@ -87,6 +87,8 @@ def worker(job):
   from vf import bmc_models as M, pybmc as B, bmc_replay as R, pybmc_front as F
   t0 = time.time()
   out = {'job': sc['name'], 'scenario': {k: v for k, v in sc.items() if k != 'depths'}}
+  if sc.get('hunt'):
+    out['scenario']['hunt_depths'] = list(sc['depths'])
   try:
     sysm, drivers = build(sc)
   except F.Unsupported as e:
@@ -197,6 +199,13 @@ def absorb(rep, results, pid):
         rep.violation(signature(res), f"{name}: {res.get('what')}", {'engine': 'pybmc', 'scenario': res['scenario'], 'trace': res.get('trace'), 'replay': res.get('replay')})
       else:
         rep.obligation(None, name, f"HARNESS-ERROR {v} trace did not reproduce on the real code: {res.get('replay')}")
+    elif v == 'bound' and (res.get('scenario') or {}).get('hunt') and res.get('depth') == max(res['scenario'].get('hunt_depths') or [0]):
+      # depth-bounded scenario ("bug hunting" in CBMC's terms): every interleaving of up to `depth` macro-steps was decided, longer executions were not
+      rep.obligation(True, name + f':depth<={res["depth"]}')
+      cov.setdefault('depth_bounded_scenarios', []).append({'job': name, 'depth': res['depth'], 'note': 'no deadlock / bad state within this many macro-steps; the unwinding '
+                                                            'query is sat, i.e. longer executions exist and are NOT covered (the thorough tier exhausts this scenario)'})
+      rep.sample({'scenario': res['scenario'], 'verdict': f'no deadlock / no bad state in any interleaving of <= {res["depth"]} macro-steps (depth-bounded, not exhaustive)',
+                  'pre-emption points per thread': res['pp']})
     elif v == 'bound':
       rep.obligation(None, name, f"depth bound {res.get('depth')} too small (unwinding query sat) - {res.get('detail')}")
     else:
